@@ -561,6 +561,10 @@ fn eval_oracle(ctx: &Ctx, o: &mut Outcome, it: &Item, orc: &Oracle, v: &Value) {
             // derived targets whose attributes relax the type check render their own view of a UDT (an absent or
             // empty value becomes all-missing fields): compared only where the case names them, otherwise they are
             // run for "a value or an error, never a crash"
+            if name.starts_with("Walk(") {
+                o.class("observed:lazy-collection-walked(not compared)");
+                continue;
+            }
             if (name.contains("UdtLoose") || name.contains("UdtOrdered")) && !must {
                 o.class("observed:loose-derived-target-decoded(not asserted)");
                 continue;
@@ -1220,6 +1224,8 @@ fn declare(o: &mut Outcome, full: bool) {
             "target-decoded:(Option<UdtAB>,)",
             "target-decoded:(Option<UdtLoose>,)",
             "target-decoded:(Option<UdtOrdered>,)",
+            "target-decoded:Walk(VectorIterator<f32>)",
+            "target-decoded:Walk(ListlikeIterator<i32>)",
         ] {
             o.require_class(c);
         }
